@@ -113,6 +113,64 @@ Example C20_zero_fill_grouped_example :
   py_format (Spec None None None true true 12 true (Some Tx)) (-255) = Some [45;48;120;48;48;48;48;95;48;48;102;102].
 Proof. vm_compute. reflexivity. Qed.
 
+(* --- '_' grouping: positions of the separators, including the interaction with the zero-fill width --- *)
+(* CPython's grouping loop (group_digits, the function py_format uses and the differential run ties to format() and to
+   the simulator) = "pad with zeros, then insert a separator after every g characters counted from the right".
+   All digit strings, all group sizes g >= 1, all minimum widths mw. *)
+Theorem C20_group_positions g digs mw : 1 <= g -> digs <> [] ->
+  group_digits (Some g) digs mw = sep_right g (pad (zero_count g (zlen digs) mw) 48 ++ digs).
+Proof. exact (group_digits_spec g digs mw). Qed.
+Print Assumptions C20_group_positions.
+
+(* sep_right is grouping from the right: the last g characters are split off behind a separator, recursively *)
+Theorem C20_sep_right_is_grouping_from_the_right g :  1 <= g ->
+  (forall b, zlen b <= g -> sep_right g b = b) /\
+  (forall a b, a <> [] -> zlen b = g -> sep_right g (a ++ b) = sep_right g a ++ 95 :: b) /\
+  (forall l, Forall (fun c => c <> 95) l -> strip (sep_right g l) = l) /\
+  (forall l, l <> [] -> zlen (sep_right g l) = grouped_len g (zlen l)).
+Proof.
+  intros Hg. repeat split.
+  - intros; apply sep_right_small; auto.
+  - intros; apply sep_right_peel; auto.
+  - intros; apply sep_right_strip; auto.
+  - intros; apply sep_right_length; auto.
+Qed.
+Print Assumptions C20_sep_right_is_grouping_from_the_right.
+
+(* how many zeros: none below the natural length; otherwise just enough to reach mw — mw + 1 when mw is a multiple of
+   g + 1, because a grouped text cannot start with a separator *)
+Theorem C20_group_width g digs mw : 1 <= g -> digs <> [] ->
+  let L := zlen (group_digits (Some g) digs mw) in
+  mw <= L /\ grouped_len g (zlen digs) <= L /\
+  (grouped_len g (zlen digs) < L -> L = if mw mod (g + 1) =? 0 then mw + 1 else mw).
+Proof. intros Hg Hd. rewrite (group_digits_spec g digs mw Hg Hd). exact (pad_then_group_length g digs mw Hg Hd). Qed.
+Print Assumptions C20_group_width.
+
+(* every numeric spec with '_' : sign, prefix and the padded-then-grouped digits (groups of 3 for d/none, 4 for b o x X),
+   laid out by alignment/fill/width; the padding-then-grouping width is non-trivial only in CPython's zero mode *)
+Theorem C20_grouped_format sp v : numeric (f_type sp) -> f_group sp = true ->
+  let t := f_type sp in
+  let s := sign_text sp (v <? 0) in
+  let p := if f_alt sp then prefix_of t else [] in
+  py_format sp v =
+  Some (layout (eff_align sp ARight) (eff_fill sp) (f_width sp) s p
+          (pad_then_group (group_size t) (digit_text t v)
+             (if zero_mode sp ARight then f_width sp - zlen s - zlen p else 0)) [])
+  /\ (zero_mode sp ARight = false ->
+      pad_then_group (group_size t) (digit_text t v) 0 = sep_right (group_size t) (digit_text t v)).
+Proof.
+  intros Hn Hg. split; [exact (py_format_grouped sp v Hn Hg)|]. intros _.
+  apply pad_then_group_nowidth; [destruct (f_type sp) as [[]|]; cbn; lia|apply digit_text_nonempty|lia].
+Qed.
+Print Assumptions C20_grouped_format.
+
+Example C20_group_examples :
+  sep_right 3 [49;50;51;52;53;54;55] = [49;95;50;51;52;95;53;54;55]            (* 1_234_567 *)
+  /\ group_digits (Some 3) [53] 4 = [48;95;48;48;53] /\ zero_count 3 1 4 = 3   (* '04_d' of 5 -> 0_005 (5 chars) *)
+  /\ group_digits (Some 4) [102;102] 7 = [48;48;95;48;48;102;102]              (* width 7 met exactly: 00_00ff *)
+  /\ group_digits (Some 4) [102;102] 5 = [48;95;48;48;102;102].                (* 5 is a multiple of 4+1: 6 chars *)
+Proof. vm_compute. repeat split. Qed.
+
 (* --- c is a code point, s the byte string (little-endian bytes, zero bytes dropped, UTF-8) --- *)
 Theorem C20_c_is_code_point v : 0 <= v <= 1114111 -> py_format (plain (Some Tc)) v = Some [v].
 Proof. exact (py_format_c v). Qed.
@@ -256,3 +314,69 @@ Example C20_assert_example :
   Forall (fun env => edge_renders sigs env p = true) envs /\ first_fail sigs p envs 0 = None /\
   first_fail sigs (PSeq p (PIf (CNz 0) (PProp KAssume (VAsU 0) None) (PProp KAssume (VSig 0) None))) ([3] :: [0] :: envs) 0 = Some 1%nat.
 Proof. vm_compute. repeat split; repeat constructor. Qed.
+
+(* --- the FORMAT parameter of the RTLIL $print cell (back/rtlil.py emit_print) ---
+   rtl_emit_field is the model of the string building (validated against rtlil.convert by the differential run);
+   rchunks_render is the reading of the emitted items (justify, padding character, width, base, sign, '#', '_',
+   s/u as the Yosys manual describes them; NOT validated against Yosys, none is available here). *)
+Theorem C20_rtlil_format_denotes_simulation s sh sp v cs :
+  parse_spec s sh = Some sp -> rtl_agrees sp = true ->
+  (f_type sp = Some Ts -> Forall (fun b => 0 <= b < 128) (value_bytes v)) ->
+  rtl_emit_field sp (width sh) (sgn sh) = Some cs ->
+  rchunks_render cs v = py_format sp v.
+Proof. exact (rtl_accepted_agrees s sh sp v cs). Qed.
+Print Assumptions C20_rtlil_format_denotes_simulation.
+
+Theorem C20_rtlil_emission_defined sp size sg :
+  rtl_emit_field sp size sg = None <-> 128 <= match dict_fill sp with Some c => c | None => 32 end.
+Proof. exact (rtl_emit_defined sp size sg). Qed.
+Print Assumptions C20_rtlil_emission_defined.
+
+(* non-vacuity: "*>+#12_x" on signed(16): {16:>*12h+#_s} *)
+Example C20_rtlil_example :
+  exists sp cs, parse_spec [42; 62; 43; 35; 49; 50; 95; 120] (Sh 16 true) = Some sp /\ rtl_agrees sp = true /\
+    rtl_emit_field sp 16 true = Some cs /\
+    flat_map rchunk_text cs = [123;49;54;58;62;42;49;50;104;43;35;95;115;125] /\
+    rchunks_render cs (-255) = Some [42;42;42;42;42;42;42;45;48;120;102;102].
+Proof.
+  exists (Spec (Some 42) (Some ARight) (Some SPlus) true false 12 true (Some Tx)).
+  eexists. repeat split; vm_compute; reflexivity.
+Qed.
+
+(* FINDING (RTLIL, not a simulation defect): the three excluded classes are real differences.
+   1. '0' flag written with an explicit alignment and no fill: Python/simulator pad with '0', the dict of
+      _parse_format_spec keeps fill=None and the emitted item pads with ' '.
+      Format("{:<05}", a), a = 5 :  simulator "50000",  FORMAT "{8:< 5du}" -> "5    ". *)
+Theorem C20_rtlil_zero_flag_with_alignment_refuted :
+  exists s sh sp v cs, parse_spec s sh = Some sp /\ rtl_emit_field sp (width sh) (sgn sh) = Some cs /\
+    flat_map rchunk_text cs = [123;56;58;60;32;53;100;117;125] /\
+    py_format sp v = Some [53;48;48;48;48] /\ rchunks_render cs v = Some [53;32;32;32;32].
+Proof.
+  exists [60; 48; 53], (Sh 8 false), (Spec None (Some ALeft) None false true 5 false None), 5.
+  eexists. repeat split; vm_compute; reflexivity.
+Qed.
+Print Assumptions C20_rtlil_zero_flag_with_alignment_refuted.
+
+(*  2. type c with a width and no alignment: Python right-aligns integers (also with 'c'), emit_print defaults to '<'.
+      Format("{:5c}", a), a = 65 :  simulator "    A",  FORMAT "{8:U}    " -> "A    ". *)
+Theorem C20_rtlil_char_default_alignment_refuted :
+  exists s sh sp v cs, parse_spec s sh = Some sp /\ rtl_emit_field sp (width sh) (sgn sh) = Some cs /\
+    flat_map rchunk_text cs = [123;56;58;85;125;32;32;32;32] /\
+    py_format sp v = Some [32;32;32;32;65] /\ rchunks_render cs v = Some [65;32;32;32;32].
+Proof.
+  exists [53; 99], (Sh 8 false), (Spec None None None false false 5 false (Some Tc)), 65.
+  eexists. repeat split; vm_compute; reflexivity.
+Qed.
+Print Assumptions C20_rtlil_char_default_alignment_refuted.
+
+(*  3. type c padded with a brace: the fill is copied into FORMAT without doubling.
+      Format("{:{}}", a, "{<5c"), a = 65 :  Python "A{{{{",  FORMAT "{8:U}{{{{" -> "A{{". *)
+Theorem C20_rtlil_char_brace_fill_refuted :
+  exists s sh sp v cs, parse_spec s sh = Some sp /\ rtl_emit_field sp (width sh) (sgn sh) = Some cs /\
+    flat_map rchunk_text cs = [123;56;58;85;125;123;123;123;123] /\
+    py_format sp v = Some [65;123;123;123;123] /\ rchunks_render cs v = Some [65;123;123].
+Proof.
+  exists [123; 60; 53; 99], (Sh 8 false), (Spec (Some 123) (Some ALeft) None false false 5 false (Some Tc)), 65.
+  eexists. repeat split; vm_compute; reflexivity.
+Qed.
+Print Assumptions C20_rtlil_char_brace_fill_refuted.
